@@ -1,12 +1,12 @@
 """Generator for C17: diploid ground truth (SNVs, some of them multi-allelic: two ALT alleles, allele ids 0..2), error-free
-reads, and a history description (phase | custom phased VCF) -> haplotag -> (unphase | partial unphase | nothing) ->
-haplotagphase.  A variant is {"pos", "ref", "alt"} (biallelic) or additionally "alts": [alt1, alt2] (then "alt" = alt1)."""
+reads, and a history description (phase | custom phased VCF) -> haplotag -> (unphase | partial unphase | nothing | forms:
+already phased calls in every encoding the reader accepts, see gen_forms) -> haplotagphase.  A variant is {"pos", "ref", "alt"} (biallelic) or additionally "alts": [alt1, alt2] (then "alt" = alt1)."""
 import os
 
 import pysam
 
 from . import sim
-from .c10_gen import make_alignment, PS_FMT, FLAG_PAIRED, FLAG_PROPER, FLAG_REV, FLAG_MREV, FLAG_R1, FLAG_R2, FLAG_DUP, FLAG_SEC, FLAG_SUPP
+from .c10_gen import make_alignment, PS_FMT, HP_FMT, FLAG_PAIRED, FLAG_PROPER, FLAG_REV, FLAG_MREV, FLAG_R1, FLAG_R2, FLAG_DUP, FLAG_SEC, FLAG_SUPP
 
 
 def alts_of(v):
@@ -131,9 +131,11 @@ def gen_case(rng, size=1.0):
                 a["tags"].append(["BX", bx_of[a["name"]]])
     # `whatshap phase` does not read multi-allelic records: only a generator-written V phases them
     source = "phase" if rng.random() < (0.25 if multi else 0.6) else "custom"
-    unphase = rng.choice(["cli", "cli", "cli", "partial", "partial", "none"])
+    unphase = rng.choice(["cli", "cli", "cli", "partial", "partial", "none", "forms", "forms", "forms"])
     hist = {"source": source, "unphase": unphase, "foreign": unphase == "partial" and rng.random() < 0.4,
             "keep": {s: {c: [rng.random() < 0.35 for _ in variants[c]] for c in contigs} for s in samples}}
+    if unphase == "forms":
+        hist.update(gen_forms(rng, samples, contigs, variants))
     if multi and rng.random() < 0.2:
         hist["no_mav"] = True          # haplotagphase --no-mav: multi-allelic records are neither read nor written
     if source == "custom":
@@ -168,12 +170,86 @@ def gen_case(rng, size=1.0):
             "read_groups": read_groups, "history": hist, "gaps": gaps, "bx_cutoff": bx_cutoff}
 
 
-def write_vcf(case, path, calls):
-    """calls(sample, chrom, i) -> {'GT':..., 'PS':...}"""
+GT_FORMS = ("ps", "nokey", "dot", "zero")
+
+
+def gen_forms(rng, samples, contigs, variants):
+    """Input of haplotagphase in which some calls are already phased, in every encoding VcfReader accepts:
+      ps     phased GT + PS value            0|1:17
+      nokey  phased GT, record without PS    0|1          (Beagle, SHAPEIT, ...: VcfReader gives it block id 0)
+      dot    phased GT, PS missing           0|1:.        (a merge with such a panel: block id None)
+      zero   phased GT, PS 0                 0|1:0
+      hp     unphased GT + HP                0/1:17-1,17-2   (whole file: VcfReader rejects HP next to phased GTs)
+    per call an order that agrees or disagrees with the VCF that tagged the reads (= what the tagged reads vote) and the
+    phase set of that VCF or a foreign one.  'pskey'[c][i]: the record's FORMAT has PS (GT encodings only); a record
+    without PS cannot hold a call with a PS value, so the forms of one record are drawn compatibly."""
+    hp = rng.random() < 0.2
+    style = "hp" if hp else rng.choice(["mixed", "mixed", "nokey", "dot", "zero", "ps"])
+    dens = rng.choice([0.15, 0.4, 0.8])
+    forms = {s: {c: [None] * len(variants[c]) for c in contigs} for s in samples}
+    pskey = {c: [] for c in contigs}
+    for c in contigs:
+        for i in range(len(variants[c])):
+            if style == "hp":
+                key = False
+            elif style == "mixed":
+                key = rng.random() < 0.6
+            else:
+                key = style != "nokey"
+            pskey[c].append(key)
+            for s in samples:
+                if rng.random() >= dens:
+                    continue
+                if style == "hp":
+                    enc = "hp"
+                elif not key:
+                    enc = "nokey"
+                elif style == "mixed":
+                    enc = rng.choice(["ps", "dot", "zero"])
+                else:
+                    enc = style
+                forms[s][c][i] = {"enc": enc, "agree": rng.random() < 0.5, "set": rng.choice(["same", "foreign"]),
+                                  "fps": rng.choice([5, rng.randrange(1, 5000)])}
+    out = {"forms": forms, "pskey": pskey, "u_enc": "hp" if hp else "gt"}
+    # (`whatshap haplotagphase` has no --tag option: what it phases is always written as phased GT + PS)
+    if style == "nokey" and rng.random() < 0.5:
+        out["no_ps_header"] = True  # a file that does not even define PS
+    return out
+
+
+def form_call(case, s, c, i, V):
+    """the call of sample s at variant i in the 'forms' input; V = {(s, c, pos): (phased, alleles, ps)} of the VCF that
+    tagged the reads"""
+    hist = case["history"]
+    f = hist["forms"][s][c][i]
+    pos = case["variants"][c][i]["pos"]
+    ph, al, ps = V[(s, c, pos)]
+    h0, h1 = case["haps"][s][c][0][i], case["haps"][s][c][1][i]
+    hp_file = hist["u_enc"] == "hp"
+    if f is None or h0 == h1:
+        a, b = sorted((h0, h1))
+        return {"GT": f"{a}/{b}", "PS": ".", "HP": "."}
+    o0, o1 = (al if ph else (h0, h1))
+    if not f["agree"]:
+        o0, o1 = o1, o0
+    pset = ps if (ph and ps is not None and f["set"] == "same") else f["fps"]
+    if f["enc"] == "hp":
+        x, y = sorted((o0, o1))
+        return {"GT": f"{x}/{y}", "HP": f"{pset}-1,{pset}-2" if o0 == x else f"{pset}-2,{pset}-1"}
+    return {"GT": f"{o0}|{o1}", "PS": {"ps": str(pset), "dot": ".", "zero": "0", "nokey": "."}[f["enc"]]}
+
+
+def write_vcf(case, path, calls, forms=False):
+    """calls(sample, chrom, i) -> {'GT':..., 'PS':...}; forms: the FORMAT of every record and the header follow
+    history['pskey'] / ['u_enc'] / ['no_ps_header'] (input of haplotagphase with already phased calls)"""
     recs = []
+    hist = case["history"]
     for c in case["contigs"]:
         for i, v in enumerate(case["variants"][c]):
-            recs.append({"chrom": c, "pos": v["pos"], "ref": v["ref"], "alts": alts_of(v), "format": ["GT", "PS"],
+            fmt = ["GT", "PS"]
+            if forms:
+                fmt = ["GT", "HP"] if hist["u_enc"] == "hp" else (["GT", "PS"] if hist["pskey"][c][i] else ["GT"])
+            recs.append({"chrom": c, "pos": v["pos"], "ref": v["ref"], "alts": alts_of(v), "format": fmt,
                          "calls": [calls(s, c, i) for s in case["samples"]]})
             if i in case.get("dups", {}).get(c, []):
                 # second record at the same position, other ALT (a split multi-allelic site): the first record's call with
@@ -186,8 +262,13 @@ def write_vcf(case, path, calls):
                     a, b = k["GT"].split(sep)
                     k["GT"] = f"{b}{sep}{a}" if sep == "|" else k["GT"]
                     dc.append(k)
-                recs.append({"chrom": c, "pos": v["pos"], "ref": v["ref"], "alts": [alt2], "format": ["GT", "PS"], "calls": dc})
-    sim.write_vcf(path, case["contigs"], case["samples"], recs, fmt_defs={"PS": PS_FMT})
+                recs.append({"chrom": c, "pos": v["pos"], "ref": v["ref"], "alts": [alt2], "format": fmt, "calls": dc})
+    defs = {"PS": PS_FMT}
+    if forms and hist["u_enc"] == "hp":
+        defs = {"PS": PS_FMT, "HP": HP_FMT}
+    elif forms and hist.get("no_ps_header"):
+        defs = {}
+    sim.write_vcf(path, case["contigs"], case["samples"], recs, fmt_defs=defs)
 
 
 def unphased_call(case, s, c, i):
